@@ -10,7 +10,7 @@ from ..stateful import Mismatch
 
 PROPERTY = 'C15'
 RULE = ("sum, cumsum, prod, cumprod, dot, matmul, trace, max, min, sort, clip, transpose, diagonal on fixed-point arrays of shapes (1..8,) and up to 3x3, n_word<=12, through the numpy function and the method, "
-        "axis None or any valid axis (transpose: no axes / any permutation as axes / .T; clip: both limits, one limit, list and ndarray limits which must come back unmodified); elements all-lowest, all-highest, alternating extremes or random; dot/matmul with a second operand of independent format and signedness (1-d.1-d, 2-d.1-d, 2-d.2-d). "
+        "axis None, any valid axis, both axes as a tuple, keepdims (diagonal/trace also with axis1/axis2 exchanged; transpose: no axes / any permutation as axes / .T; clip: both limits, one limit, list and ndarray limits which must come back unmodified); elements all-lowest, all-highest, alternating extremes or random; dot/matmul with a second operand of independent format and signedness (1-d.1-d, 2-d.1-d, 2-d.2-d). "
         "Oracle: the same numpy reduction applied to an object array of Fractions built from the codes (numpy only iterates, the arithmetic is Fraction's): exact values and shape; result is an Fxp; "
         "no overflow/underflow flag for the accumulating functions; both routes agree. Result word <=53 (prod/cumprod only when n*n_word<=53). "
         "Non-trivial = >=2 elements with at least one extreme, or axis not None, or mixed signedness in dot; distinct = distinct case keys.")
@@ -56,8 +56,10 @@ def check_func(ctx, case):
     A = frac_array(codes, fmt, shape)
     kw = {}
     if func in ('sum', 'cumsum', 'prod', 'cumprod', 'max', 'min'):
-        kw['axis'] = axis
-        expected = getattr(np, func)(A, axis=axis)
+        kw['axis'] = tuple(axis) if isinstance(axis, list) else axis
+        if case.get('keepdims'):
+            kw['keepdims'] = True
+        expected = getattr(np, func)(A, **kw)
     elif func == 'sort':
         ax = -1 if axis is None else axis
         kw['axis'] = ax
@@ -75,7 +77,9 @@ def check_func(ctx, case):
             sig += '/axes'
     elif func in ('diagonal', 'trace'):
         kw['offset'] = case.get('offset', 0)
-        expected = getattr(np, func)(A, offset=kw['offset'])
+        if case.get('swap_axes'):
+            kw['axis1'], kw['axis2'] = 1, 0
+        expected = getattr(np, func)(A, **kw)
     else:
         raise ValueError(func)
 
@@ -217,16 +221,25 @@ def st_func(draw):
     n = int(np.prod(shape))
     fmt = draw(st_fmt15())
     axis = None
+    case_keepdims = False
     if func in ('sum', 'cumsum', 'prod', 'cumprod', 'max', 'min', 'sort'):
         axis = draw(st.sampled_from([None] + list(range(len(shape))) + [-1]))
+    if func in ('sum', 'prod', 'max', 'min') and len(shape) == 2:
+        v = draw(st.integers(0, 5))
+        if v == 0 and func != 'prod':
+            axis = [0, 1]                      # a tuple of axes (all of them); prod rejects tuples with a TypeError
+        elif v == 1 and axis is not None:
+            case_keepdims = True
     if func in ('prod', 'cumprod'):
         # result word n*w must stay <= 53
-        nn = n if (axis is None or func == 'cumprod') else shape[axis]
+        nn = n if (axis is None or isinstance(axis, list) or func == 'cumprod') else shape[axis]
         while nn * fmt[1] > 53:
             fmt = (fmt[0], max(fmt[1] - 1, 1), min(fmt[2], max(fmt[1] - 1, 1) + 2))
     codes, kind = draw(st_elems(fmt, n))
     case = {'check': 'func', 'func': func, 'fmt': list(fmt), 'shape': shape, 'codes': codes, 'kind': kind, 'axis': axis,
             'route': draw(st.sampled_from(['numpy', 'method']))}
+    if case_keepdims:
+        case['keepdims'] = True
     if func == 'clip':
         lo, hi = M.rng(fmt[0], fmt[1])
         a = draw(st.integers(lo, hi))
@@ -245,6 +258,10 @@ def st_func(draw):
     if func in ('trace', 'diagonal'):
         # only offsets whose diagonal has at least one element (an empty result cannot be held by an Fxp)
         r, c = shape
+        swap = draw(st.integers(0, 3)) == 0
+        if swap:
+            case['swap_axes'] = True
+            r, c = c, r
         case['offset'] = draw(st.sampled_from([o for o in (0, 0, 1, -1) if (min(r, c - o) if o >= 0 else min(r + o, c)) >= 1]))
     return case
 
